@@ -208,36 +208,36 @@ def install():
         from ceos_alos2 import array
 
         f = array.read_chunk
-        return _rebind(f, icontract.require(read_chunk_pre, error=E)(icontract.ensure(read_chunk_post, error=E)(f)))
+        return _rebind(f, icontract.require(read_chunk_pre, error=E, enabled=True)(icontract.ensure(read_chunk_post, error=E, enabled=True)(f)))
 
     def c_chunk_offsets():
         from ceos_alos2 import array
 
         f = array.compute_chunk_offsets
-        return _rebind(f, icontract.ensure(chunk_offsets_post, error=E)(f))
+        return _rebind(f, icontract.ensure(chunk_offsets_post, error=E, enabled=True)(f))
 
     def c_parse_chunk():
         from ceos_alos2.sar_image import io as sio
 
         f = sio.parse_chunk
-        return _rebind(f, icontract.ensure(parse_chunk_post, error=E)(f))
+        return _rebind(f, icontract.ensure(parse_chunk_post, error=E, enabled=True)(f))
 
     def c_read_metadata():
         from ceos_alos2.sar_image import io as sio
 
         f = sio.read_metadata
-        return _rebind(f, icontract.ensure(read_metadata_post, error=E)(f))
+        return _rebind(f, icontract.ensure(read_metadata_post, error=E, enabled=True)(f))
 
     def c_getitem():
         from ceos_alos2 import array
 
-        array.Array.__getitem__ = icontract.ensure(getitem_post, error=E)(array.Array.__getitem__)
+        array.Array.__getitem__ = icontract.ensure(getitem_post, error=E, enabled=True)(array.Array.__getitem__)
         return 1
 
     def c_ydms():
         from ceos_alos2 import datatypes
 
-        datatypes.DatetimeYdms._decode = icontract.ensure(ydms_post, error=E)(datatypes.DatetimeYdms._decode)
+        datatypes.DatetimeYdms._decode = icontract.ensure(ydms_post, error=E, enabled=True)(datatypes.DatetimeYdms._decode)
         return 1
 
     # invariants evaluated after __init__ (explicit wrappers: the dataclass/BackendArray bases
